@@ -139,6 +139,24 @@ def check(an: Analysis) -> None:
     ob = an.ob("C06.4", "K1 strict", "ScopeContext.__aexit__ attempts the task group exit on every path (also after a failing disposables exit)", ["context.access.ScopeContext.__aexit__"])
     c02._must_attempt(an, ob, saexit, {"task group exit": c02.G_EXIT})
 
+    # ------------------------------------------------------------------ C06.7 disposables are exited while the group is still current
+    ob = an.ob("C06.7", "K1 order", "ScopeContext.__aexit__ attempts Disposables.__aexit__ before TaskGroupContext.__aexit__ on every path: a task spawned by a disposable's cleanup must land in (and be joined by) this scope's group", ["context.access.ScopeContext.__aexit__"])
+    gsa = an.cfg(saexit)
+    dxn = call_nodes(an, gsa, c02.D_EXIT)
+    gxn = call_nodes(an, gsa, c02.G_EXIT)
+    if dxn and gxn:
+        ob.inst(saexit, dxn[0].ast)
+        ob.inst(saexit, gxn[0].ast)
+
+        def skipnone(a, b, lab):
+            return a.kind == "test" and c02.none_edge(a.ast, "_disposables") == lab
+
+        w = gsa.search([gsa.entry], lambda n: n in gxn, skip_node=lambda n: n in dxn, skip_edge=skipnone)
+        if w is not None:
+            ob.fail(saexit, gxn[0].ast, "with disposables present the task group is joined (and un-published) before the disposables are exited: tasks their cleanup spawns escape the scope", CFG.show_path(w))
+    else:
+        ob.fail(saexit, None, "disposables exit / task group exit not found")
+
     # ------------------------------------------------------------------ C06.5 only __aenter__ binds the group
     ob = an.ob("C06.5", "K3", "TaskGroupContext._context.set occurs only in TaskGroupContext.__aenter__ and binds self._group (sync scopes / updates never rebind the group)")
     tq = prog.cls(TGC).qualname
